@@ -502,6 +502,10 @@ class Gen:
             ("NegativeMomentum(p)", lz.NegativeMomentum(I.p)),
             ("NegativeMomentum(p+q)", lz.NegativeMomentum(ae.ArraySum(I.p, I.q))),
             ("BoostMatrix(NegativeMomentum(p+q))", lz.BoostMatrix(lz.NegativeMomentum(ae.ArraySum(I.p, I.q)))),
+            # space inversion applied twice is the identity: q = NegativeMomentum(p) is a momentum like any other
+            ("NegativeMomentum(NegativeMomentum(p))", lz.NegativeMomentum(lz.NegativeMomentum(I.p))),
+            ("BoostMatrix(NegativeMomentum(NegativeMomentum(p)))", lz.BoostMatrix(lz.NegativeMomentum(lz.NegativeMomentum(I.p)))),
+            ("MatrixMultiplication(B(-(-p)),B(-p))", MM(lz.BoostMatrix(lz.NegativeMomentum(lz.NegativeMomentum(I.p))), Bn)),
             ("ArrayMultiplication(B(p+q),p)", AM(lz.BoostMatrix(ae.ArraySum(I.p, I.q)), I.p)),
             ("ArrayMultiplication(B(p),p)", AM(B, I.p)),
             ("ArrayMultiplication(RZ,p)", AM(RZ, I.p)),
